@@ -22,7 +22,7 @@ func VerifH_C10_string_protocol() {
 		}
 	}
 	verifCover("reached")
-	switch verifChoose(5) {
+	switch verifChoose(7) {
 	case 0:
 		v, ok := verifRun(vm, "s.search(/a/)")
 		if ok {
@@ -84,6 +84,30 @@ func VerifH_C10_string_protocol() {
 			}
 		} else if ok {
 			verifAssert(v.String() == s, "replace without a match returns the subject")
+		}
+	case 5: // search ignores the global flag and lastIndex, and leaves lastIndex alone
+		k := verifChoose(n + 2)
+		vm.Set("k", k)
+		v, ok := verifRun(vm, "var re = /a/g; re.lastIndex = k; s.search(re)")
+		if ok {
+			f, _ := v.ToFloat()
+			verifAssert(f == float64(first), "15.5.4.12 search: lastIndex and global are ignored")
+			li, _ := vm.Run("re.lastIndex")
+			lf, _ := li.ToFloat()
+			verifAssert(lf == float64(k), "15.5.4.12 search: lastIndex is left unchanged")
+		}
+	case 6: // $` and $' in a global replace refer to the whole subject around each match
+		v, ok := verifRun(vm, "s.replace(/a/g, \"[$`|$']\")")
+		if ok {
+			want := ""
+			for i := 0; i < n; i++ {
+				if s[i] == 'a' {
+					want += "[" + s[:i] + "|" + s[i+1:] + "]"
+				} else {
+					want += string([]byte{s[i]})
+				}
+			}
+			verifAssert(v.String() == want, "15.5.4.11 replace (global): $` is the subject before the match, $' the subject after it")
 		}
 	default:
 		v, ok := verifRun(vm, "var parts = s.split(/a/); parts.length")
